@@ -99,6 +99,7 @@ class Prov:
         self.memo = {}
         self._sum_memo = {}
         self._enum_memo = {}
+        self._constphi_busy = set()
         self._sum_busy = set()
 
     # ------------------------------------------------------------------ defs
@@ -208,7 +209,7 @@ class Prov:
                 for v, ps in sorted(per.items()):
                     if len(ps) == 1:
                         continue
-                    nested = nested_sum(ps, l, v)
+                    nested = nested_sum(ps, l, v, self._sum_adt)
                     if nested is not None:
                         # Ok(None) on one path, Ok(Some(x)) on another: the payload of Ok is itself a value of known
                         # variants (a spliced helper returning Result<Option<T>>)
@@ -237,6 +238,18 @@ class Prov:
             sm = self.sum_summary(l)
             if sm:
                 return ("phi", l, body.name_of(l) or "_%d" % l, sm)
+            if l not in self._constphi_busy and not (1 <= l <= body.arg_count) and l not in self.mutborrow and l not in self.partial \
+                    and body.locals[l]["ty"] in INT_TYPES:
+                # the same compile-time constant on every path (`match kind { A => 100 * 1024 * 1024, B => 100 * 1024 * 1024 }`)
+                self._constphi_busy.add(l)
+                try:
+                    ts = set(self.def_term(d) for d in self.defsites.get(l, []) if d[1] != "T")
+                    if len(ts) == 1 and len(self.defsites.get(l, [])) >= 1 and all(d[1] != "T" for d in self.defsites.get(l, [])):
+                        t = next(iter(ts))
+                        if const_only(t):
+                            return t
+                finally:
+                    self._constphi_busy.discard(l)
             return ("phi", l, body.name_of(l) or "_%d" % l)
         if 1 <= l <= body.arg_count:
             return ("param", l, body.name_of(l) or "_%d" % l)
@@ -244,6 +257,10 @@ class Prov:
         if len(ds) == 1:
             t = self.def_term(ds[0])
             if l in self.mutborrow:
+                if body.locals[l]["ty"].startswith("{closure@") and not self.mutators(l):
+                    # a closure value whose `&mut` borrow only served to call it, and the call was spliced: its captures are read,
+                    # nothing receives the borrow any more
+                    return t
                 # the local is handed out by `&mut`: its value is base + the logged mutator calls
                 return ("mut", l, body.name_of(l) or "_%d" % l, t)
             return t
@@ -506,14 +523,32 @@ def mk_field(t, name):
     return ("field", t, name)
 
 
-def nested_sum(payloads, l, v):
+INT_TYPES = {"u8", "u16", "u32", "u64", "u128", "usize", "i8", "i16", "i32", "i64", "i128", "isize"}
+
+
+def const_only(t, depth=0):
+    """The term is arithmetic over literal constants only."""
+    if depth > 10 or not isinstance(t, tuple) or not t:
+        return False
+    if t[0] == "const":
+        return isinstance(t[2], int) and not isinstance(t[2], bool)
+    if t[0] == "field" and t[2] in ("0",):
+        return const_only(t[1], depth + 1)
+    if t[0] == "binop":
+        return const_only(t[2], depth + 1) and const_only(t[3], depth + 1)
+    if t[0] == "cast":
+        return const_only(t[1], depth + 1)
+    return False
+
+
+def nested_sum(payloads, l, v, is_sum=lambda adt: adt in STD_SUM_TYPES):
     """Several literal Option/Result values of one type as a single term ("sum", ((variant, payload), ...), l, v) -- the
     payload of variant v of the multi-def local l; None when some payload is not a literal or a variant carries different
     payloads."""
     per = {}
     adts = set()
     for p in payloads:
-        if not (p[0] == "agg" and isinstance(p[1], tuple) and p[1][0] == "adt" and p[1][1] in STD_SUM_TYPES and len(p[2]) <= 1):
+        if not (p[0] == "agg" and isinstance(p[1], tuple) and p[1][0] == "adt" and is_sum(p[1][1]) and len(p[2]) <= 1):
             return None
         adts.add(p[1][1])
         per.setdefault(p[1][2], set()).add(p[2][0][1] if p[2] else ("unit",))
